@@ -7,6 +7,7 @@ SQL text differs; a marker value occurs in the SQL text; a value is missing from
 parameter list.
 """
 import datetime as dt
+import decimal
 import uuid
 
 import sqlalchemy as sa
@@ -58,6 +59,9 @@ def profile():
 INT_BASES = [918273645, 2 ** 31, 2 ** 53, 2 ** 63 - 10 ** 6, 2 ** 64, 2 ** 64 + 2 ** 40, 10 ** 30, 10 ** 19]
 STR_PADS = ["", "", "p" * 300, "q" * 5000, "", "", "", "r" * 70000]
 # fractional seconds of date-time values: none, fewer / exactly / more digits than the value type keeps
+# spellings of float literals per magnitude: plain, exponent, near the largest double, beyond it (the
+# value type turns those into inf), capital E, subnormal, below the smallest double (0.0), whole beyond 2**53
+FLOAT_FORMS = ["%d.%d", "%d.%de5", "1.%d%de300", "1.%d%de309", "9.%d%dE999", "1.%d%de-320", "1.%d%de-400", "90071992%d.%d"]
 DT_FRACS = ["", ".5", ".123", ".123456", ".1234567", ".123456789", ".123456789012", ".000000"]
 
 
@@ -79,7 +83,9 @@ def assign(t, k, mag=0):
             if x[2].startswith("-"):
                 v = "-" + v
         elif kind == "float":
-            v = "%d.%d" % (73829164 + i, 25 + k)
+            v = FLOAT_FORMS[mag] % (73829164 + i, 25 + k)
+            if x[2].startswith("-"):
+                v = "-" + v
         elif kind == "str":
             v = STR_POOL[(n[0] + k * 3) % len(STR_POOL)] + STR_PADS[mag] + "#%d" % i
         elif kind == "datetime":
@@ -115,8 +121,10 @@ def value_in_params(kind, v, params):
         return any(isinstance(p, (int, float)) and not isinstance(p, bool) and int(p) == int(v)
                    or str(p) == v for p in params)
     if kind == "float":
-        return any(isinstance(p, (int, float)) and abs(float(p) - float(v)) < 1e-6 or
-                   str(p) == v for p in params) or any(v in s for s in strs)
+        fv = float(v)
+        tol = 1e-6 if abs(fv) < 1e9 else abs(fv) * 1e-12
+        return any(isinstance(p, (int, float, decimal.Decimal)) and not isinstance(p, bool) and
+                   (float(p) == fv or abs(float(p) - fv) < tol) or str(p) == v for p in params) or any(v in s for s in strs)
     if kind == "str":
         core = "".join(c for c in v if c not in "%_\\")
 
@@ -347,7 +355,7 @@ def run(ctx):
     # value magnitudes: every literal position of a few skeletons, integers beyond 32/53/63/64
     # bits and long strings (a driver refusing to bind a value is "not judged", a statement that
     # does reach the driver must carry the value as a parameter all the same)
-    b_ = T.ident("b")
+    b_, f_ = T.ident("b"), T.ident("f")
     skels = [("cmp", "lt", a_, T.I(1)), ("cmp", "in", a_, T.lst(T.I(1), T.I(2))), ("cmp", "eq", ("bin", "add", a_, T.I(1)), b_),
              ("cmp", "eq", ("bin", "mul", T.I(1), a_), T.I(2)), ("cmp", "eq", T.call("length", s_), T.I(1)),
              ("cmp", "eq", T.call("indexof", s_, T.S("x")), T.I(1)), ("cmp", "eq", s_, T.S("x")),
@@ -356,7 +364,13 @@ def run(ctx):
              ("cmp", "eq", ("bin", "sub", T.I(1), T.I(2)), a_), ("un", "not", ("cmp", "ge", a_, T.I(1))),
              ("cmp", "gt", T.ident("d"), T.lit("datetime", "2020-01-01T00:00:00")),
              ("cmp", "in", T.ident("d"), T.lst(T.lit("datetime", "2020-01-01T00:00:00"), T.lit("datetime", "2020-01-01T00:00:00"))),
-             ("bool", "and", ("cmp", "le", T.lit("datetime", "2020-01-01T00:00:00"), T.ident("d")), ("cmp", "eq", a_, T.I(1)))]
+             ("bool", "and", ("cmp", "le", T.lit("datetime", "2020-01-01T00:00:00"), T.ident("d")), ("cmp", "eq", a_, T.I(1))),
+             # float literals in every position (the spelling follows the magnitude: FLOAT_FORMS)
+             ("cmp", "lt", f_, T.lit("float", "1.5")), ("cmp", "in", f_, T.lst(T.lit("float", "1.5"), T.lit("float", "2.5"))),
+             ("cmp", "gt", ("bin", "add", f_, T.lit("float", "1.5")), T.lit("float", "2.5")),
+             ("cmp", "le", T.lit("float", "-1.5"), ("bin", "mul", f_, T.lit("float", "2.5"))),
+             ("un", "not", ("cmp", "eq", T.call("round", f_), T.lit("float", "1.5"))),
+             ("bool", "or", ("cmp", "ne", f_, T.lit("float", "1.5")), ("cmp", "eq", a_, T.lit("float", "2.5")))]
     # a column whose type declares a collation (SQLAlchemy schema only): every string position
     sc_ = T.ident("sc")
     kk = 0
